@@ -853,7 +853,7 @@ func (v *Verifier) execLoop(s *State, lp *loopParts, node ast.Node) []*Flow {
 	}
 	// 1. invariants hold on entry
 	for k, c := range ls.invs {
-		g := env.at(s, s).trBool(c.Expr)
+		g := env.at(s, v.entry).trBool(c.Expr)
 		v.oblige(s, "inv-init", fmt.Sprintf("loop%d.%d", ls.ord, k+1), g, node.Pos(), "loop invariant holds on entry: "+c.Text)
 	}
 	var dec0 *Term
@@ -1087,13 +1087,13 @@ func (v *Verifier) markWrite(ms *loopModSet, e ast.Expr) {
 		xt := v.typeOf(x.X)
 		switch u := xt.Underlying().(type) {
 		case *types.Slice:
-			name := v.sliceHeapName(v.sortOf(u.Elem()))
+			name := v.sliceHeapNameT(u.Elem())
 			ms.bases[name] = append(ms.bases[name], x.X)
 		case *types.Array:
 			v.markWrite(ms, x.X)
 		case *types.Pointer:
 			if at, ok := u.Elem().Underlying().(*types.Array); ok {
-				name := v.sliceHeapName(v.sortOf(at.Elem()))
+				name := v.sliceHeapNameT(at.Elem())
 				ms.bases[name] = append(ms.bases[name], x.X)
 			} else {
 				ms.heapAll = true
@@ -1127,7 +1127,7 @@ func (v *Verifier) markWrite(ms *loopModSet, e ast.Expr) {
 				f := stt.Field(fi)
 				if k == len(sel.Index())-1 {
 					if at, isArr := f.Type().Underlying().(*types.Array); isArr {
-						ms.heapKind[v.sliceHeapName(v.sortOf(at.Elem()))] = true
+						ms.heapKind[v.sliceHeapNameT(at.Elem())] = true
 					} else {
 						ms.heapKind[v.heapName("F", structTypeName(cur), f.Name())] = true
 					}
@@ -1146,7 +1146,7 @@ func (v *Verifier) markWrite(ms *loopModSet, e ast.Expr) {
 		}
 		switch u := pt.Elem().Underlying().(type) {
 		case *types.Array:
-			name := v.sliceHeapName(v.sortOf(u.Elem()))
+			name := v.sliceHeapNameT(u.Elem())
 			ms.bases[name] = append(ms.bases[name], x.X)
 		case *types.Struct:
 			for i := 0; i < u.NumFields(); i++ {
@@ -1163,8 +1163,8 @@ func (v *Verifier) markWrite(ms *loopModSet, e ast.Expr) {
 func (v *Verifier) markBoxedWrite(ms *loopModSet, o *types.Var) {
 	switch u := o.Type().Underlying().(type) {
 	case *types.Array:
-		ms.heapKind[v.sliceHeapName(v.sortOf(u.Elem()))+"#box:"+o.Name()] = true
-		name := v.sliceHeapName(v.sortOf(u.Elem()))
+		ms.heapKind[v.sliceHeapNameT(u.Elem())+"#box:"+o.Name()] = true
+		name := v.sliceHeapNameT(u.Elem())
 		ms.bases[name] = append(ms.bases[name], &ast.Ident{Name: "#box", Obj: nil, NamePos: token.Pos(0)})
 		ms.boxedObjs(name, o)
 	case *types.Struct:
@@ -1320,6 +1320,17 @@ func (v *Verifier) stableBase(before *State, e ast.Expr, ms *loopModSet) (*Term,
 			}
 			return nil, false
 		}
+		// a variable that only ever holds sub-slices of another one shares its base
+		for depth := 0; depth < 4; depth++ {
+			r, has := v.sliceRoot[o]
+			if !has {
+				break
+			}
+			if _, known := before.vars[o]; known && !ms.vars[o] {
+				break
+			}
+			o = r
+		}
 		val, ok := before.vars[o]
 		if !ok {
 			return nil, false
@@ -1473,17 +1484,17 @@ func (v *Verifier) markAlloc(ms *loopModSet, t types.Type) {
 			ft := u.Field(i).Type()
 			if at, isArr := ft.Underlying().(*types.Array); isArr {
 				es := v.sortOf(at.Elem())
-				ms.allocHeaps[v.sliceHeapName(es)] = v.sliceHeapSort(es)
+				ms.allocHeaps[v.sliceHeapNameT(at.Elem())] = v.sliceHeapSort(es)
 			} else {
 				ms.allocHeaps[v.heapName("F", structTypeName(t), u.Field(i).Name())] = SArr(SInt, v.sortOf(ft))
 			}
 		}
 	case *types.Slice:
 		es := v.sortOf(u.Elem())
-		ms.allocHeaps[v.sliceHeapName(es)] = v.sliceHeapSort(es)
+		ms.allocHeaps[v.sliceHeapNameT(u.Elem())] = v.sliceHeapSort(es)
 	case *types.Array:
 		es := v.sortOf(u.Elem())
-		ms.allocHeaps[v.sliceHeapName(es)] = v.sliceHeapSort(es)
+		ms.allocHeaps[v.sliceHeapNameT(u.Elem())] = v.sliceHeapSort(es)
 	case *types.Pointer:
 		v.markAlloc(ms, u.Elem())
 	case *types.Map:
